@@ -733,7 +733,11 @@ fn corruptions(base: &Case, all_property_keys: &[String], schema: &[(String, Str
                 }
                 out.push(Case { j, origin: format!("{} + misspelt `{}`", base.origin, key_name), must_reject: Some("misspelt-key".into()) });
             }
-            // duplicate key
+            // duplicate key: the identical copy, and value variants on BOTH occurrences. A reader that tests
+            // "is it already set?" by comparing with the type's default / empty value accepts a duplicate whose
+            // first value is that default, so the first occurrence ranges over the empty values of every JSON
+            // type (and the original), the second over the original and other values; the second occurrence
+            // is placed right after the first or at the end of the object.
             {
                 let mut j = base.j.clone();
                 let mut key_name = String::new();
@@ -743,6 +747,53 @@ fn corruptions(base: &Case, all_property_keys: &[String], schema: &[(String, Str
                     kvs.push(dup);
                 }
                 out.push(Case { j, origin: format!("{} + duplicate `{}`", base.origin, key_name), must_reject: Some("duplicate-key".into()) });
+            }
+            {
+                let (key_name, original) = match get_mut(&mut base.j.clone(), p) {
+                    J::Obj(kvs) => kvs[i].clone(),
+                    _ => continue,
+                };
+                let firsts = vec![
+                    original.clone(),
+                    J::Arr(vec![]),
+                    s(""),
+                    J::Num(0),
+                    J::Bool(false),
+                    J::Obj(vec![]),
+                    J::Null,
+                ];
+                let seconds = vec![original.clone(), J::Arr(vec![]), s("zzz"), arr_s(&["zzz", "yyy"]), J::Bool(true), J::Null];
+                for (fi, first) in firsts.iter().enumerate() {
+                    for (si, second) in seconds.iter().enumerate() {
+                        if fi == 0 && si == 0 {
+                            continue; // the identical copy above
+                        }
+                        for adjacent in [true, false] {
+                            let mut j = base.j.clone();
+                            if let J::Obj(kvs) = get_mut(&mut j, p) {
+                                kvs[i].1 = first.clone();
+                                let dup = (key_name.clone(), second.clone());
+                                if adjacent {
+                                    kvs.insert(i + 1, dup);
+                                } else {
+                                    kvs.push(dup);
+                                }
+                            }
+                            out.push(Case {
+                                j,
+                                origin: format!(
+                                    "{} + duplicate `{}` with values {} then {} ({})",
+                                    base.origin,
+                                    key_name,
+                                    first.text(),
+                                    second.text(),
+                                    if adjacent { "adjacent" } else { "at the end" }
+                                ),
+                                must_reject: Some("duplicate-key-variant".into()),
+                            });
+                        }
+                    }
+                }
             }
             // wrong type
             let (key_name, current) = match get_mut(&mut base.j.clone(), p) {
@@ -835,7 +886,8 @@ fn check_case(case: &Case, model: &mut Model) -> Outcome {
     match (&real, &answer) {
         (_, ModelAnswer::Err(class)) if class == "unmodelled" => {}
         (Err(message), ModelAnswer::Err(class)) => {
-            if case.must_reject.is_some() && !class_matches(class, message) {
+            // value variants of a duplicate may be ill typed as well: a double fault, whichever error comes first
+            if case.must_reject.is_some() && case.must_reject.as_deref() != Some("duplicate-key-variant") && !class_matches(class, message) {
                 out.violations.push(Violation {
                     kind: "correspondence".into(),
                     check: "error-class".into(),
